@@ -135,7 +135,9 @@ func runProperty(res *Result, prop, tier string, seed uint64, driver, replay str
 			m = L(Sym("missing"))
 		}
 		compare(res, c, m)
+		runOracles(res, prop, c)
 	}
+	res.Rule = "seeded recipe generator (SplitMix64, VERIF_SEED) over the constructor API, stdlib/pkg-errors/OS/user types, plus every ordered (outer, inner) kind pair; a case is distinct by recipe text and non-trivial when it built a non-nil error whose streams were all compared"
 	for i := 0; i < 3 && i < len(cases); i++ {
 		s := cases[len(cases)-1-i].Cmd.String()
 		if len(s) > 600 {
